@@ -28,6 +28,7 @@ const (
 	cV2    = "V2"    // valid, rule r1 changed: path /p2
 	cRJ    = "RJ"    // valid YAML and schema, references an unknown mechanism: the processor always rejects it
 	cEmpty = "EMPTY" // zero bytes
+	cBlank = "BLANK" // no YAML document: a line break and a comment (e.g. every rule commented out)
 	cInv   = "INV"   // syntactically invalid YAML
 	cBad   = "BAD"   // well formed YAML violating the rule set schema (unknown property)
 	cNone  = ""      // source does not exist / nothing active
@@ -66,9 +67,12 @@ rules:
     - authenticator: does_not_exist
 `,
 	cEmpty: "",
+	cBlank: "\n# every rule of this set is commented out\n",
 	cInv:   "version: \"1alpha4\"\nrules: [ {id: r1, match: \n",
 	cBad:   "version: \"1alpha4\"\nfoo: bar\nrules:\n- id: r1\n",
 }
+
+func isEmptyContent(c string) bool { return c == cEmpty || c == cBlank }
 
 func isValidContent(c string) bool { return c == cV1 || c == cV2 || c == cRJ }
 
@@ -100,7 +104,7 @@ func classify(content string) obs {
 	switch content {
 	case cNone:
 		return obs{class: oGone}
-	case cEmpty:
+	case cEmpty, cBlank:
 		return obs{class: oEmpty}
 	case cInv, cBad:
 		return obs{class: oInvalid}
